@@ -9,6 +9,7 @@ from harness import octa
 from harness.octa import clist, copt
 from harness.shrink import shrink_list
 from harness.props import C09 as P9
+from harness import rigid_r3
 
 import magpylib as magpy
 
@@ -594,14 +595,23 @@ def run(ctx):
         "hand models coq/Model/PathModel.v (one object) and coq/Model/CompoundModel.v (recursion of move/_rotate "
         "into children with the handed-down parent_path, child loops of the position/orientation setters, "
         "reset_path), tied by the exact tree-history correspondence",
+        "coq/Lib/RigidR3.v: R^3 with SO(3) = {M | M M^T = I, det M = 1} is an instance of RigidLaws (axioms: "
+        "stdlib reals + ProofIrrelevance.proof_irrelevance); its quat_to_mat / qmul expressions are read out of the "
+        "Coq file and compared with scipy Rotation (as_matrix, __mul__, apply, inv) on floats, rtol 1e-12 - "
+        "that scipy's Rotation IS this algebra up to rounding is validated, not proved",
         "input validation and scipy's Rotation.from_* conversions are not modelled; the float search drives the "
         "rotate_from_* front ends; the field corollary is proved for an abstract element formula "
         "R_s^-1 R_d f(R_d^-1(p_s + R_s x - p_d)) and checked on real sources through Collection.getB()",
     ]
     ok = ctx.regen(["GenPath"])
     built = ctx.build_props() and ok
+    # the physical instance R^3 x SO(3) of the abstract algebra (shared by C03/C04/C06/C09/C10)
+    built_r3 = ctx.build_props("Props/RigidR3Inst.v")
     if ctx.tier == "thorough" and built:
         ctx.coqchk("MV.Props.C10")
+    if ctx.tier == "thorough" and built_r3:
+        ctx.coqchk("MV.Props.RigidR3Inst")
+    run_guarded(ctx, lambda: rigid_r3.check(ctx, ctx.n(300, 5000)), "RigidR3 vs scipy Rotation")
 
     def corr():
         cases = structured_cases() if ctx.tier == "thorough" else structured_cases()[::7]
